@@ -102,7 +102,8 @@ extern "C" size_t PROBE_FN(PROBE_GROUP)(char* out, size_t cap) {
     if (!env) return 0;
     // what executes next, read from the bytes at pc
     long long pco = off(env->script, env->pc);
-    if (env->tce) b.kv("next", "commit");
+    if (env->done) b.kv("next", "nothing");      // the session is over, whatever flags are still set
+    else if (env->tce) b.kv("next", "commit");
     else if (pco >= 0 && (size_t)pco < env->script.size() && off(env->script, env->pend) == (long long)env->script.size()) {
         CScript::const_iterator it = env->script.begin() + pco;
         opcodetype opc; valtype push;
